@@ -96,6 +96,18 @@ def dfxp_strategy(tier):
     @st.composite
     def build(draw):
         pool = draw(st.lists(layout_s(), min_size=1, max_size=3))
+        if draw(st.integers(0, 3)) == 0:
+            # a layout that differs from another one only by float noise (30.3 vs 10.1 + 20.2):
+            # both print alike, both must keep their position
+            import json as _json
+            twin = _json.loads(_json.dumps(pool[0]))
+            for part in ("origin", "extent"):
+                if twin.get(part):
+                    twin[part][0][0] = twin[part][0][0] + draw(st.sampled_from([1e-9, 3e-12, 0.001, -1e-9]))
+                    if twin[part][0][0] < 0:
+                        twin[part][0][0] = 1e-9
+                    break
+            pool = pool + [twin]
         pick = st.sampled_from(pool)
         lang_layout = draw(_opt(pick, 1))
         cues = []
@@ -152,6 +164,23 @@ def _outside_safe_area(m):
         Ls.append(c.get("layout"))
         Ls += [n.get("layout") for n in c["nodes"]]
     return any(L and L.get("origin") and (L["origin"][0][0] > 90 or L["origin"][1][0] > 95) for L in Ls)
+
+
+def _same_layout(a, b):
+    """canonical layouts equal up to the two printed decimals"""
+    if a[3] != b[3]:
+        return False
+    for x, y in zip(a[:3], b[:3]):
+        if (x is None) != (y is None):
+            return False
+        if x is None:
+            continue
+        if len(x) != len(y):
+            return False
+        for (v1, u1), (v2, u2) in zip(x, y):
+            if u1 != u2 or abs(v1 - v2) > 0.005 + 1e-9:
+                return False
+    return True
 
 
 def check_dfxp(case, rec):
@@ -211,7 +240,7 @@ def check_dfxp(case, rec):
                 _check_fit(E, co, ci, ch)
                 ce = (ce[0], None, ce[2], ce[3])
                 co = (co[0], None, co[2], co[3])
-            require(ce == co, lambda: f"cue {ci} char {ch!r} (#{k}): layout after round trip "
+            require(_same_layout(ce, co), lambda: f"cue {ci} char {ch!r} (#{k}): layout after round trip "
                                       f"{co}, effective input layout {ce}; output: {out[:900]!r}")
     levels = sum(1 for x in ([lang.get("layout")] + [c.get("layout") for c in lang["cues"]]) if x)
     rec.nontrivial(len(layouts_seen) >= 2 or levels >= 2)
@@ -249,10 +278,15 @@ def webvtt_strategy(tier):
             lc = draw(_opt(pick))
             explicit = draw(st.booleans())
             nodes = []
-            for k in range(draw(st.integers(1, 3))):
+            nn = draw(st.integers(1, 3))
+            # trailing layout-less nodes after positioned ones take the caption's (or language's)
+            # layout; a layout-less node BEFORE a positioned one has no specified cue
+            trailing_none = draw(st.integers(0, nn - 1)) if explicit and draw(st.integers(0, 2)) == 0 else 0
+            for k in range(nn):
                 if k:
                     nodes.append({"br": 1, "layout": None})
-                nodes.append({"t": f"c{ci}n{k}", "layout": draw(pick) if explicit else None})
+                positioned = explicit and k < nn - trailing_none
+                nodes.append({"t": f"c{ci}n{k}", "layout": draw(pick) if positioned else None})
             cues.append({"start": 1000000 * (ci + 1), "end": 1000000 * (ci + 1) + 900000,
                          "nodes": nodes, "style": {}, "layout": lc})
         return {"set": {"langs": [{"code": "en-US", "layout": lang_layout, "cues": cues}],
